@@ -307,6 +307,20 @@ func schedConfigs(prop, tier string) []schedCfg {
 			add(es, l, cpu, true, 1, eb)
 		}
 	}
+	// spellings the kernel refuses although their lexical clean-up names an existing file
+	ses := []hentry{{Kind: "file", Path: "a", Content: "x"}, {Kind: "missing", Path: "nodir/../a"}, {Kind: "missing", Path: "a/"}, {Kind: "missing", Path: "a/."}}
+	for _, l := range listsOver(len(ses), 2) {
+		bad := false
+		for _, i := range l {
+			if i > 0 {
+				bad = true
+			}
+		}
+		if bad {
+			add(ses, l, 1, false, -1, 0)
+			add(ses, l, 2, false, -1, 0)
+		}
+	}
 	// a file large enough for a different reading strategy (the environment may shrink it meanwhile)
 	bes := []hentry{{Kind: "bigfile", Path: "big"}, {Kind: "file", Path: "a", Content: "x"}}
 	add(bes, []int{0}, 1, true, 1, 1)
@@ -347,7 +361,7 @@ func runSchedCfg(root string, c schedCfg, capExecs int64) schedResult {
 	res := schedResult{Digests: map[string]int64{}, Multiset: c.multiset()}
 	files := make([]string, len(c.List))
 	for i, k := range c.List {
-		files[i] = filepath.Join(root, c.Entries[k].Path)
+		files[i] = root + string(filepath.Separator) + c.Entries[k].Path // not Join: the spelling is part of the entry
 	}
 	var digest string
 	var herr error
@@ -1170,7 +1184,7 @@ func schedReplay(path string) int {
 	materialiseEntries(root, c.Entries)
 	files := make([]string, len(c.List))
 	for i, k := range c.List {
-		files[i] = filepath.Join(root, c.Entries[k].Path)
+		files[i] = root + string(filepath.Separator) + c.Entries[k].Path // not Join: the spelling is part of the entry
 	}
 	var digest string
 	var herr error
